@@ -97,7 +97,9 @@ func verifFaultBytes(c *Conn, site string, b []byte) []byte {
 
 // VerifSessionTicket / VerifWithTicket let a harness look at and replace the opaque ticket inside a
 // cached client session (to present a tampered ticket as a client would).
-func VerifSessionTicket(cs *ClientSessionState) []byte { return append([]byte(nil), cs.sessionTicket...) }
+func VerifSessionTicket(cs *ClientSessionState) []byte {
+	return append([]byte(nil), cs.sessionTicket...)
+}
 
 func VerifWithTicket(cs *ClientSessionState, ticket []byte) *ClientSessionState {
 	n := *cs
